@@ -87,6 +87,9 @@ class MaxRateClassifier(Module):
 
         self.register_load_state_dict_post_hook(sdhook)
 
+        # derive the non-persistent buffers from the initial rates
+        self.rates = self.rates
+
     @property
     def assignments(self) -> torch.Tensor:
         r"""Class assignments per-neuron.
